@@ -46,6 +46,8 @@ def build(chk):
     c_boundaries(chk)
     c_init(chk)
     c_findvwLTE(chk)
+    c_template_matching(chk)
+    c_eqWall(chk)
 
 
 def c_findTm(chk):
@@ -246,6 +248,191 @@ def c_findvwLTE(chk):
     for p in sel(paths, "raise"):
         if p.exc.cls != "ValueError":
             chk.undecided.append(f"template findvwLTE raises {p.exc.cls}")
+
+
+def _tm_registry():
+    """contracts of the closed forms proved above, as callee contracts"""
+    WFA, FTM, SHOOT, GETVP, SOLVE = (specfun(n) for n in ("wFromAlpha", "findTm", "shooting", "getVp", "solveAlphaNC"))
+    reg = {"HydrodynamicsTemplateModel.wFromAlpha": lambda it, so, a, k: (it.event(kind="contract-call", name="wFromAlpha", args=list(a)), WFA(a[0]))[1],
+           "HydrodynamicsTemplateModel._findTm": lambda it, so, a, k: FTM(a[0], a[1], a[2]),
+           "HydrodynamicsTemplateModel._shooting": lambda it, so, a, k: SHOOT(a[0], a[1]),
+           "HydrodynamicsTemplateModel.getVp": lambda it, so, a, k: GETVP(a[0], a[1]),
+           "HydrodynamicsTemplateModel.solveAlpha": lambda it, so, a, k: (it.event(kind="contract-call", name="solveAlpha", args=list(a) + [k.get("constraint")]), SOLVE(a[0]))[1],
+           "HydrodynamicsTemplateModel.detonationVAndT": lambda it, so, a, k: (it.event(kind="contract-call", name="detonationVAndT", args=list(a)),
+                                                                               tuple(real(f"det.{n}") for n in ("vp", "vm", "Tp", "Tm")))[1]}
+    return reg, WFA, FTM, SHOOT, GETVP, SOLVE
+
+
+def c_template_matching(chk):
+    """Template findMatching / matchDeflagOrHybInitial / minVelocity: what is handed to the root finder and how the result is turned into
+    (v+, v-, T+, T-): v- = min(cb, vw); alpha+ is the junction relation solved for alpha at (v+, v-); w+(T+) = wN wFromAlpha(alpha+)
+    with the template enthalpy; T- from _findTm (energy flux, proved above)."""
+    from wgvc import stubs
+    fn = f"{TQ}.findMatching"
+    reg, WFA, FTM, SHOOT, GETVP, SOLVE = _tm_registry()
+    vw, vJt, vMint = real("vw"), real("vJt"), real("vMint")
+    cs2 = real("cs2")
+    pre = POS + [Gt(vw, 0), Lt(vw, 1), Gt(cs2, 0), Lt(cs2, 1), Gt(vJt, 0), Lt(vJt, 1), Ge(vMint, 0)]
+    vm_spec = sp.Piecewise((cb, Lt(cb, vw)), (vw, True))
+
+    def mk(it):
+        for c in pre:
+            it.assume(c)
+        return make_template(), [vw], {}, {}
+    paths = chk.summarize(MODULE, "HydrodynamicsTemplateModel.findMatching", mk, registry=reg, externals=stubs.EXTERNALS)
+    kinds = {"detonation": 0, "none": 0, "root": 0}
+    for i, p in enumerate(sel(paths)):
+        v = p.value
+        det = [e for e in p.events if e.get("name") == "detonationVAndT"]
+        rs = [e for e in p.events if e.get("kind") == "root_scalar" and e.get("site", "").endswith("findMatching")]
+        if det:
+            kinds["detonation"] += 1
+            chk.vc(f"template.findMatching.detonation-iff-above-vJ.{i}", p.pc, And(Gt(vw, vJt), sym.to_sym(all(a is b for a, b in zip(v, [real(f"det.{n}") for n in ("vp", "vm", "Tp", "Tm")])))), func=fn)
+            continue
+        if all(x is None for x in v):
+            kinds["none"] += 1
+            chk.vc(f"template.findMatching.no-solution-reason.{i}", p.pc,
+                   And(Le(vw, vJt), Or(Lt(vw, vMint), sym.to_sym(any(e.get("raised") for e in rs)))), func=fn)
+            continue
+        kinds["root"] += 1
+        if len(rs) != 1 or "root" not in rs[0]:
+            chk.undecided.append("template findMatching: returning path without its root find")
+            continue
+        e = rs[0]
+        vp, vm, Tp, Tm = v
+        chk.vc(f"template.findMatching.window.{i}", p.pc, And(Le(vw, vJt), Ge(vw, vMint)), func=fn)
+        chk.vc(f"template.findMatching.root-of-shooting-residual.{i}", p.pc,
+               And(Eq(vp, e["root"]), Eq(e["generic_f"], SHOOT(vw, e["generic_x"])), Eq(e["a"], 0), Le(e["b"], vw), Le(e["b"], cs2 / vw),
+                   Eq(e["xtol"], real("atol")), Eq(e["rtol"], real("rtol"))), func=fn)
+        chk.vc(f"template.findMatching.vm-is-min-cb-vw.{i}", p.pc, Eq(vm, vm_spec), func=fn)
+        # T+ : w+(T+) = wN * wFromAlpha(alpha+), alpha+ the junction relation solved at (vp, vm); T- : _findTm(vm, vp, T+)
+        wcalls = [c_ for c_ in p.events if c_.get("name") == "wFromAlpha"]
+        if len(wcalls) != 1:
+            chk.undecided.append("template findMatching: expected one wFromAlpha call")
+            continue
+        alp = wcalls[0]["args"][0]
+        chk.vc(f"template.findMatching.alpha-plus-solves-wall-relation.{i}", p.pc + [Gt(vp, 0), Lt(vp, 1)], wall_relation(vp, vm, alp), func=fn)
+        chk.vc(f"template.findMatching.Tplus-from-enthalpy.{i}", p.pc + [Gt(WFA(alp), 0)], Eq(wH(Tp), wN * WFA(alp)), func=fn)
+        chk.canary(f"template.findMatching.Tplus-from-enthalpy.{i}", p.pc + [Gt(WFA(alp), 0)], Eq(wH(Tp), 2 * wN * WFA(alp)), func=fn)
+        chk.vc(f"template.findMatching.Tminus-from-findTm.{i}", p.pc, Eq(Tm, FTM(vm, vp, Tp)), func=fn)
+    if min(kinds.values()) == 0:
+        chk.undecided.append(f"template findMatching: path classes missing {kinds}")
+    # matchDeflagOrHybInitial
+    fn2 = f"{TQ}.matchDeflagOrHybInitial"
+    vpin = real("vpIn")
+    for label, vparg in (("vp-given", vpin), ("lte", None)):
+        def mk2(it, vparg=vparg):
+            for c in pre + [Gt(vpin, 0), Lt(vpin, 1)]:
+                it.assume(c)
+            return make_template(), [vw, vparg], {}, {}
+        rets = sel(chk.summarize(MODULE, "HydrodynamicsTemplateModel.matchDeflagOrHybInitial", mk2, registry=reg))
+        if not rets:
+            chk.undecided.append(f"matchDeflagOrHybInitial[{label}]: no returning path")
+        for i, p in enumerate(rets):
+            Tp, Tm = p.value
+            vm_here = sp.Piecewise((vw, Lt(vw, cb)), (cb, True))
+            if vparg is not None:
+                wcalls = [c_ for c_ in p.events if c_.get("name") == "wFromAlpha"]
+                if len(wcalls) != 1:
+                    chk.undecided.append("matchDeflagOrHybInitial: expected one wFromAlpha call")
+                    continue
+                alp = wcalls[0]["args"][0]
+                chk.vc(f"template.matchDeflagOrHybInitial.{label}.alpha-plus-solves-wall-relation.{i}", p.pc, wall_relation(vpin, vm_here, alp), func=fn2)
+                chk.vc(f"template.matchDeflagOrHybInitial.{label}.Tplus-from-enthalpy.{i}", p.pc + [Gt(WFA(alp), 0)], Eq(wH(Tp), wN * WFA(alp)), func=fn2)
+                chk.vc(f"template.matchDeflagOrHybInitial.{label}.Tminus-from-findTm.{i}", p.pc, Eq(Tm, FTM(vm_here, vpin, Tp)), func=fn2)
+            else:
+                calls = [e for e in p.events if e.get("name") == "solveAlpha"]
+                ok = len(calls) == 1 and calls[0]["args"][0] is vw and (calls[0]["args"][-1] is False or (len(calls[0]["args"]) > 2 and calls[0]["args"][1] is False))
+                chk.vc(f"template.matchDeflagOrHybInitial.{label}.alpha-unconstrained.{i}", p.pc, sym.to_sym(bool(ok)), func=fn2)
+                al = SOLVE(vw)
+                chk.vc(f"template.matchDeflagOrHybInitial.{label}.Tplus-from-enthalpy.{i}", p.pc + [Gt(WFA(al), 0)], Eq(wH(Tp), wN * WFA(al)), func=fn2)
+                chk.vc(f"template.matchDeflagOrHybInitial.{label}.Tminus-from-findTm.{i}", p.pc, Eq(Tm, FTM(vm_here, GETVP(vm_here, al), Tp)), func=fn2)
+    # minVelocity: 0 when alN < 1/3 (a wall at rest is a solution), else the velocity at which the plasma in front comes to rest (v+ = 0)
+    fn3 = f"{TQ}.minVelocity"
+
+    def mk3(it):
+        for c in pre:
+            it.assume(c)
+        return make_template(), [], {}, {}
+    paths3 = chk.summarize(MODULE, "HydrodynamicsTemplateModel.minVelocity", mk3, registry=reg, externals=stubs.EXTERNALS)
+    seen = set()
+    for i, p in enumerate(sel(paths3)):
+        rs = [e for e in p.events if e.get("kind") == "root_scalar"]
+        if not rs:
+            seen.add("zero")
+            chk.vc(f"template.minVelocity.zero-iff-alpha-below-third.{i}", p.pc, And(Eq(p.value, 0), Lt(alN, sym.R(1, 3))), func=fn3)
+            continue
+        seen.add("root")
+        e = rs[0]
+        chk.vc(f"template.minVelocity.root-of-shooting-at-vp-zero.{i}", p.pc,
+               And(Ge(alN, sym.R(1, 3)), Eq(p.value, e["root"]), Eq(e["generic_f"], SHOOT(e["generic_x"], 0)), Eq(e["a"], sym.R(1, 10**6)), Eq(e["b"], vJt),
+                   Eq(e["xtol"], real("atol")), Eq(e["rtol"], real("rtol"))), func=fn3)
+    if seen != {"zero", "root"}:
+        chk.undecided.append(f"template minVelocity: path classes {sorted(seen)}")
+
+
+def c_eqWall(chk):
+    """_eqWall(al, vm) - the function whose zero solveAlpha looks for - vanishes exactly when the enthalpy ratio w-/w+ that follows from
+    ENTROPY conservation T+ gamma+ = T- gamma- with the template EOS,  E = (gamma+^2/gamma-^2)^(nu/2) psiN wFromAlpha(al)^(nu/mu - 1),
+    equals the one that follows from ENERGY-FLUX conservation,  R = gamma+^2 v+ / (gamma-^2 v-), given the wall relation between
+    (v+, v-, alpha+) that getVp solves:   3 nu _eqWall = E - R.   solveAlpha returns a bracketed root of it with the object's tolerances."""
+    from wgvc import stubs
+    fn = f"{TQ}._eqWall"
+    al, vm, vp = real("al"), real("vm"), real("vpw")
+    WFA = specfun("wFromAlpha")
+    reg = {"HydrodynamicsTemplateModel.wFromAlpha": lambda it, so, a, k: WFA(a[0]),
+           "HydrodynamicsTemplateModel.getVp": lambda it, so, a, k: (it.event(kind="contract-call", name="getVp", args=list(a) + [k.get("branch")]), vp)[1]}
+    pre = POS + [Gt(vm, 0), Lt(vm, 1), Gt(vp, 0), Lt(vp, 1), Gt(al, 0), Gt(WFA(al), 0), Eq((nu_ - 1) * cb**2, 1), wall_relation(vp, vm, al),
+                 Ne(1 - (nu_ - 1) * vp * vm, 0)]
+    for branch in (-1, 1):
+        def mk(it, branch=branch):
+            for c in pre:
+                it.assume(c)
+            return make_template(), [al, vm, branch], {}, {}
+        for i, p in enumerate(sel(chk.summarize(MODULE, "HydrodynamicsTemplateModel._eqWall", mk, registry=reg))):
+            calls = [e for e in p.events if e.get("name") == "getVp"]
+            chk.vc(f"_eqWall.branch{branch}.vp-from-getVp.{i}", p.pc, sym.to_sym(len(calls) == 1 and calls[0]["args"][0] is vm and calls[0]["args"][1] is al
+                                                                            and branch in [x for x in calls[0]["args"][2:] if isinstance(x, int)]), func=fn)
+            R = gammaSq(vp) * vp / (gammaSq(vm) * vm)
+            E = (gammaSq(vp) / gammaSq(vm))**(nu_ / 2) * psi * WFA(al)**(nu_ / mu_ - 1)
+            chk.vc(f"_eqWall.branch{branch}.entropy-vs-energy-flux.{i}", p.pc, Eq(3 * nu_ * p.value, E - R), func=fn)
+            chk.canary(f"_eqWall.branch{branch}.entropy-vs-energy-flux.{i}", p.pc, Eq(3 * nu_ * p.value, E + R), func=fn)
+    # solveAlpha
+    fn2 = f"{TQ}.solveAlpha"
+    EQW = specfun("eqWall")
+    vw = real("vw")
+    cs2 = real("cs2")
+    reg2 = {"HydrodynamicsTemplateModel._eqWall": lambda it, so, a, k: EQW(*(list(a) + [k.get("branch", -1)])[:3])}
+    for constraint in (True, False):
+        def mk2(it, constraint=constraint):
+            for c in POS + [Gt(vw, 0), Lt(vw, 1), Gt(cs2, 0), Lt(cs2, 1)]:
+                it.assume(c)
+            return make_template(), [vw, constraint], {}, {}
+        paths = chk.summarize(MODULE, "HydrodynamicsTemplateModel.solveAlpha", mk2, registry=reg2, externals=stubs.EXTERNALS)
+        rets = sel(paths)
+        if not rets:
+            chk.undecided.append(f"solveAlpha[{constraint}]: no returning path")
+        vm_spec = sp.Piecewise((cb, Lt(cb, vw)), (vw, True))
+        for i, p in enumerate(rets):
+            rs = [e for e in p.events if e.get("kind") == "root_scalar"]
+            if len(rs) != 1 or "root" not in rs[0]:
+                chk.undecided.append("solveAlpha: returning path without its root find")
+                continue
+            e = rs[0]
+            gx = e["generic_x"]
+            gf = e["generic_f"]
+            ok_f = isinstance(gf, sp.Basic) and type(gf).__name__ == "eqWall" and gf.args[0] == gx
+            tagc = 'constrained' if constraint else 'free'
+            chk.vc(f"solveAlpha.{tagc}.root-of-eqWall.{i}", p.pc,
+                   And(sym.to_sym(bool(ok_f)), Eq(gf.args[1], vm_spec) if ok_f else sp.false, Eq(p.value, e["root"]), Eq(e["b"], sym.R(1, 3)),
+                       Eq(e["xtol"], real("atol")), Eq(e["rtol"], real("rtol"))), func=fn2)
+            chk.vc(f"solveAlpha.{tagc}.bracket-starts-above-zero.{i}", p.pc, Gt(e["a"], 0), func=fn2)
+            chk.vc(f"solveAlpha.{tagc}.bracket-starts-above-vacuum-bound.{i}", p.pc, Gt(e["a"], (mu_ - nu_) / (3 * mu_)), func=fn2)
+            chk.vc(f"solveAlpha.{'constrained' if constraint else 'free'}.branch-choice.{i}", p.pc,
+                   sym.to_sym(bool(ok_f)) if not ok_f else Or(Eq(gf.args[2], -1), And(Eq(gf.args[2], 1), Gt(vm_spec, cb**2))), func=fn2)
+        for p in sel(paths, "raise"):
+            if p.exc.cls not in ("WallGoError",):
+                chk.undecided.append(f"solveAlpha raises {p.exc.cls}")
 
 
 def c_init(chk):
